@@ -45,6 +45,16 @@ var tags = []string{"", "tagA", "tagB"}
 var addrs = []string{"<10.0.0.1:9618?sock=schedd_1234_5678>", "<10.0.0.1:9618?sock=startd_1234_9999>"}
 var cmds = []int{421, 60007, 9}
 
+// commands every cache state is probed with (LookupByCommand): the alphabet plus command 0,
+// which no server of the catalogue declares unless it says so
+var probeCmds = []int{421, 60007, 9, 0}
+
+// ValidCommands strings a server may announce in its post-auth ad (event "announce")
+var validCatalogue = []string{
+	"421,60007,", "421,,60007", " 421 , 9 ", "DC_NOP,421", "99999999999999999999,9", "-5,421",
+	"0", "421,0x10", ",", "+421,9", "421,60007", "0,421", "60007,READ,", "9 ,, ,421",
+}
+
 // commands the server declares valid for a session established for cmds[i]
 var validFor = map[int][]int{421: {421, 60007}, 60007: {60007}, 9: {421}}
 
@@ -60,7 +70,7 @@ var silentDeadline = 250 * time.Millisecond
 // ---- history ----------------------------------------------------------------
 
 type event struct {
-	Kind     string `json:"k"`             // hs retry tick inval invalexp lne restart import
+	Kind     string `json:"k"`             // hs retry tick inval invalexp lne restart import announce
 	Tag      string `json:"tag,omitempty"` // hs/retry
 	Addr     int    `json:"addr"`          // index into addrs (hs, restart); -1 = no address at all
 	Cmd      int    `json:"cmd,omitempty"` // command int (hs/retry); -1 = NoCommand
@@ -69,6 +79,7 @@ type event struct {
 	Via      string `json:"via,omitempty"`      // peername | stream | both
 	Dt       int    `json:"dt,omitempty"`
 	K        int    `json:"n,omitempty"`     // ordinal of a session (inval, lne); 99 = an id never issued
+	Valid    int    `json:"valid,omitempty"` // announce: index into validCatalogue
 	Claim    int    `json:"claim,omitempty"` // import: number of the claim (1, 2) imported through ImportClaimSession; 0 = Store + MapCommand of ordinal K
 }
 
@@ -482,7 +493,7 @@ func (w *world) observe() snapshot {
 	}
 	for _, t := range tags {
 		for ai := range addrs {
-			for _, c := range cmds {
+			for _, c := range probeCmds {
 				tr := [3]string{t, w.addrName[ai], fmt.Sprint(c)}
 				if e, ok := w.cache.LookupByCommand(t, w.addrName[ai], fmt.Sprint(c)); ok {
 					s.bycmd[tr] = e.ID()
@@ -550,7 +561,7 @@ func idx(l []string, x string) int {
 }
 
 func cmdIdx(c int) int {
-	for i, y := range cmds {
+	for i, y := range probeCmds {
 		if c == y {
 			return i
 		}
@@ -575,7 +586,7 @@ func (w *world) keyTable() map[string][3]int {
 	w.keys = map[string][3]int{}
 	for ti, t := range tags {
 		for ai := range addrs {
-			for ci, c := range cmds {
+			for ci, c := range probeCmds {
 				w.keys[realKey(t, w.addrName[ai], fmt.Sprint(c))] = [3]int{ti, ai, ci}
 			}
 		}
@@ -617,7 +628,7 @@ func (w *world) snapTerm(s snapshot) string {
 	i := 0
 	for _, t := range tags {
 		for ai := range addrs {
-			for _, c := range cmds {
+			for _, c := range probeCmds {
 				tr := [3]string{t, w.addrName[ai], fmt.Sprint(c)}
 				if id := s.bycmd[tr]; id != "" {
 					bc = append(bc, fmt.Sprintf("B n%d n%d", i, w.sidN(id)))
@@ -744,6 +755,17 @@ func runHistory(h history) runOut {
 		for id, found := range s.byid {
 			if found && !ref.live(id) {
 				fail("dead-session-still-reachable", "%s: Lookup(%s) finds a session that is expired, dropped or invalidated", what, w.sidName(id))
+			}
+		}
+		for _, t := range tags { // commands outside the alphabet that nobody may have been routed to undeclared
+			for ai := range addrs {
+				for _, extra := range []string{"-1", "1", "00", "60021"} {
+					if en, ok := w.cache.LookupByCommand(t, w.addrName[ai], extra); ok {
+						if rs := ref.sess[en.ID()]; rs == nil || rs.tag != t || rs.addr != w.addrName[ai] || !rs.cmds[extra] {
+							fail("lookup-returns-unrelated-session", "%s: LookupByCommand(%q,%s,%s) returns %s, which was not declared valid for it", what, t, w.unalias(w.addrName[ai]), extra, w.sidName(en.ID()))
+						}
+					}
+				}
 			}
 		}
 		for k, id := range s.cmdmap {
@@ -1002,6 +1024,25 @@ func runHistory(h history) runOut {
 				}
 			}
 			term = fmt.Sprintf("XInvalidateExpired z%d", n)
+		case "announce":
+			// the client stores the session of a full handshake whose post-auth ad announced this
+			// ValidCommands string (the real storeClientSession, entered through the verif hook)
+			valid := validCatalogue[e.Valid%len(validCatalogue)]
+			addr := w.addrName[e.Addr]
+			id := fmt.Sprintf("announced:77:1700000000:%d", len(w.ids)+1)
+			w.ord(id)
+			cfg := &security.SecurityConfig{PeerName: addr, SecurityTag: e.Tag, SessionCache: w.cache, Command: 421}
+			security.VerifStoreClientSession(cfg, nil, id, "unauthenticated@unmapped", valid, bytes.Repeat([]byte{0x6b}, 32), security.CryptoAES, sessDuration, sessLease, w.cache)
+			nrs := &refSess{id: id, tag: e.Tag, addr: addr, cmds: map[string]bool{}, exp: ref.now + sessDuration, lease: sessLease, present: true}
+			ref.sess[id] = nrs
+			for _, f := range strings.Split(valid, ",") { // what the server declared: the non-empty elements, as written
+				if f = strings.TrimSpace(f); f != "" {
+					nrs.cmds[f] = true
+					ref.routes[[3]string{e.Tag, addr, f}] = id
+				}
+			}
+			out.counts["announce-validcommands"]++
+			term = fmt.Sprintf("XAnnounce n%d n%d n%d %s", w.sidN(id), idx(tags, e.Tag), e.Addr, hexs(valid))
 		case "import":
 			// a session id is registered again under another tag / address / command - whether the
 			// earlier entry is gone or STILL STORED: by Store + MapCommand (Claim == 0, a previously
@@ -1116,6 +1157,12 @@ func randEvent(c *core.Ctx, pos int, prev []event) event {
 				hs = append(hs, p)
 			}
 		}
+		for _, p := range prev { // after an announcement, often ask for command 0 or the alphabet to that address
+			if p.Kind == "announce" && r.Intn(3) == 0 {
+				e.Tag, e.Addr, e.Cmd = p.Tag, p.Addr, probeCmds[r.Intn(4)]
+				return e
+			}
+		}
 		if len(hs) > 0 && r.Intn(10) < 6 {
 			p := hs[r.Intn(len(hs))]
 			e.Tag, e.Addr, e.Cmd = p.Tag, p.Addr, p.Cmd
@@ -1156,6 +1203,8 @@ func randEvent(c *core.Ctx, pos int, prev []event) event {
 		return event{Kind: "inval", K: []int{1, 2, 3, 99}[r.Intn(4)]}
 	case x < 89:
 		return event{Kind: "invalexp"}
+	case x < 91:
+		return event{Kind: "announce", Tag: tags[r.Intn(3)], Addr: r.Intn(2), Valid: r.Intn(len(validCatalogue))}
 	case x < 94:
 		e := event{Kind: "import", K: 1 + r.Intn(2), Tag: tags[r.Intn(3)], Addr: r.Intn(2), Cmd: cmds[r.Intn(3)]}
 		if r.Intn(2) == 0 {
@@ -1273,6 +1322,16 @@ func gen(c *core.Ctx) error {
 		{H("tagA", 0, 421), {Kind: "tick", Dt: 3000}, {Kind: "lne", K: 1}, {Kind: "invalexp"}, {Kind: "import", K: 1, Tag: "tagB", Addr: 1, Cmd: 9}, H("tagA", 0, 421), H("tagB", 1, 9), H("tagA", 0, 60007)},
 		{H("", 0, 421), {Kind: "tick", Dt: 3000}, {Kind: "hs", Tag: "tagB", Addr: 1, Cmd: 9, Mode: "ok", Via: "peername", Explicit: 1}, {Kind: "invalexp"}, {Kind: "import", K: 1, Tag: "tagA", Addr: 0, Cmd: 60007}, H("", 0, 421), H("", 0, 60007), H("tagA", 0, 60007)},
 		{H("tagA", 0, 421), H("tagB", 1, 60007), {Kind: "tick", Dt: 3000}, {Kind: "lne", K: 1}, {Kind: "invalexp"}, {Kind: "invalexp"}, {Kind: "import", K: 1, Tag: "", Addr: 0, Cmd: 421}, H("tagA", 0, 60007), H("", 0, 421)},
+		// malformed ValidCommands announcements, then handshakes for command 0 and other never-declared commands
+		{{Kind: "announce", Tag: "tagA", Addr: 0, Valid: 0}, H("tagA", 0, 0), H("tagA", 0, 421), H("tagA", 0, 9)},
+		{{Kind: "announce", Tag: "", Addr: 1, Valid: 1}, H("", 1, 0), H("", 1, 60007)},
+		{{Kind: "announce", Tag: "tagB", Addr: 0, Valid: 3}, H("tagB", 0, 0), H("tagB", 0, 421)},
+		{{Kind: "announce", Tag: "tagB", Addr: 1, Valid: 4}, H("tagB", 1, 0), H("tagB", 1, 9)},
+		{{Kind: "announce", Tag: "", Addr: 0, Valid: 5}, H("", 0, 0), H("", 0, 421)},
+		{{Kind: "announce", Tag: "tagA", Addr: 1, Valid: 6}, H("tagA", 1, 0), H("tagA", 1, 421)},
+		{{Kind: "announce", Tag: "tagA", Addr: 1, Valid: 11}, H("tagA", 1, 0), H("tagA", 1, 421)},
+		{{Kind: "announce", Tag: "", Addr: 0, Valid: 2}, H("", 0, 9), H("", 0, 0), {Kind: "announce", Tag: "", Addr: 0, Valid: 8}, H("", 0, 0), H("", 0, 421)},
+		{{Kind: "announce", Tag: "tagB", Addr: 0, Valid: 12}, H("tagB", 0, 0), {Kind: "announce", Tag: "tagB", Addr: 0, Valid: 13}, H("tagB", 0, 0), H("tagB", 0, 9), {Kind: "announce", Tag: "tagB", Addr: 0, Valid: 9}, H("tagB", 0, 421)},
 		// an id that is STILL STORED is registered again under another triple; handshakes for the old and the new triple
 		{H("tagA", 0, 421), {Kind: "import", K: 1, Tag: "tagB", Addr: 1, Cmd: 9}, H("tagA", 0, 421), H("tagA", 0, 60007), H("tagB", 1, 9)},
 		{{Kind: "import", Claim: 1, Tag: "tagA", Addr: 0, Cmd: 421}, {Kind: "import", Claim: 1, Tag: "", Addr: 1, Cmd: 9}, H("tagA", 0, 421), H("", 1, 9), {Kind: "import", Claim: 1, Tag: "", Addr: 1, Cmd: 60007}, H("", 1, 9), H("", 1, 60007)},
